@@ -249,6 +249,8 @@ class FuncContract:
     self.info = extract.get_func(key)
     self.defs = defs or {}
     self.uses = 0
+    self.calls = []  # actual argument values, in call order
+    self.results = []  # fresh result values handed to callers, in call order (so that a caller's obligations can name them)
 
   def _bind(self, ex, args, kw):
     node = self.info.node
@@ -293,6 +295,8 @@ class FuncContract:
     for text in self.ensures:
       f = tobool(eval_contract_expr(ex, cfr, text, genv, result=res))
       ex.assume(zb(f) if head is True else z3.Implies(head, zb(f)))
+    self.results.append(res)
+    self.calls.append(vals)
     return res
 
   def verify(self, prefix=None, contracts=None, timeout_ms=None, pre=None, lemmas=(), chain=False, cases=None):
